@@ -17,8 +17,11 @@ Inductive obj :=
 | OIter (l : list Z).           (* iterator over the remaining items *)
 
 (* registered typeids: four from SyncManager._registry, two registered by the harness to
-   exercise method_to_typeid (the only real user, Pool, is too heavy), one unknown *)
-Inductive typ := TList | TDict | TValue | TIter | TShelf | TShelfRef | TUnknown.
+   exercise method_to_typeid (the only real user, Pool, is too heavy), one registered by the
+   harness WITHOUT a proxy type and without an `exposed` tuple (`register('AList', list)`, the
+   way SyncManager registers Queue / JoinableQueue / AsyncResult: proxies are built by
+   AutoProxy(), `exposed` is public_methods(obj)), one unknown *)
+Inductive typ := TList | TDict | TValue | TIter | TShelf | TShelfRef | TAutoList | TUnknown.
 
 Inductive arg := AZ (z : Z) | AL (l : list Z) | AD (d : dict Z) | ANone.
 
@@ -155,6 +158,8 @@ Definition list_apply (shelf : bool) (l : list Z) (m : meth) (a : list arg) : lr
                          end
   | M_len, [] => same (VInt n)
   | M_contains, [AZ x] => same (VBool (0 <? count_z x l))
+  | M_clear, [] => LRet VNone (OList [])      (* list.clear / list.copy: public methods, exposed *)
+  | M_copy, [] => same (VList l)              (* only for the AutoProxy typeid *)
   | M_clone, [] => if shelf then same (VList l) else LUnmodelled
   | M_me, [] => if shelf then same VSelf else LUnmodelled
   | _, _ => arity_default (arity_ok m (length a)) a
@@ -248,11 +253,17 @@ Definition exposed_of (t : typ) (m : meth) : bool :=
                        (* IteratorProxy._exposed_ = __next__, send, throw, close *)
   | TShelf => list_exposed m || match m with M_clone | M_me => true | _ => false end
   | TShelfRef => match m with M_append | M_len | M_getitem => true | _ => false end
+  | TAutoList => match m with          (* public_methods(list): no name starting with '_' *)
+                 | M_append | M_clear | M_copy | M_count | M_extend | M_index | M_insert | M_pop
+                 | M_remove | M_reverse | M_sort => true
+                 | _ => false
+                 end
   | TUnknown => false
   end.
 
 (* what the proxy class offers to its user: IteratorProxy defines __next__ and send (among the
-   modelled names), the other proxy classes exactly their exposed methods.  (Before the repair
+   modelled names), the other proxy classes exactly their exposed methods -- for an AutoProxy
+   typeid by construction: MakeProxyType defines one method per exposed name.  (Before the repair
    of IteratorProxy._exposed_ the server exposed nothing of what IteratorProxy offers.) *)
 Definition offered (t : typ) (m : meth) : bool :=
   match t, m with
@@ -313,10 +324,11 @@ Definition create_tail (s : st) (id : Z) (e : slot) : out st Z :=
 Definition mk_obj (t : typ) (a : list arg) : option obj + mexn :=
   match t, a with
   | TUnknown, _ => inr E_Key
-  | TList, [] | TShelf, [] => inl (Some (OList []))
-  | TList, [AL l] | TShelf, [AL l] => inl (Some (OList l))
-  | TList, [AZ _] | TShelf, [AZ _] => inr E_Type
-  | TList, _ :: _ :: _ | TShelf, _ :: _ :: _ => if forallb is_az a then inr E_Type else inl None
+  | TList, [] | TShelf, [] | TAutoList, [] => inl (Some (OList []))
+  | TList, [AL l] | TShelf, [AL l] | TAutoList, [AL l] => inl (Some (OList l))
+  | TList, [AZ _] | TShelf, [AZ _] | TAutoList, [AZ _] => inr E_Type
+  | TList, _ :: _ :: _ | TShelf, _ :: _ :: _ | TAutoList, _ :: _ :: _ =>
+    if forallb is_az a then inr E_Type else inl None
   | TDict, [] => inl (Some (ODict []))
   | TDict, [AD d] => inl (Some (ODict (fold_left (fun acc kv => dset acc (fst kv) (snd kv)) d [])))
   | TDict, [AZ _] => inr E_Type
@@ -880,7 +892,7 @@ Definition obj_eqb (a b : obj) : bool :=
 Definition typ_eqb (a b : typ) : bool :=
   match a, b with
   | TList, TList | TDict, TDict | TValue, TValue | TIter, TIter | TShelf, TShelf
-  | TShelfRef, TShelfRef | TUnknown, TUnknown => true
+  | TShelfRef, TShelfRef | TAutoList, TAutoList | TUnknown, TUnknown => true
   | _, _ => false
   end.
 Definition val_eqb (a b : val) : bool :=
